@@ -293,6 +293,37 @@ def case_load(case):
                     viols.append(_v("first-frame-vs-load_one", f"{tagb}: load_one refuses the file: {exc}"))
         feats.append(f"load:{case['writer']}:{case['klass']}:intact")
         # frame boundaries from the writer itself (concatenation formats)
+        if case["writer"] == "fchk_traj" and not viols:
+            # FCHK trajectories are stored as per-point arrays: one array of one point made shorter by a geometry (header count and
+            # values together, so that the file stays well-formed): steps are missing - a warning or an error, never a silent end
+            import re
+
+            lines = text.splitlines(keepends=True)
+            m = re.search(r"^Number of atoms\s+I\s+(\d+)", text, flags=re.M)
+            natom = int(m.group(1)) if m else 0
+            heads = [i for i, ln in enumerate(lines) if re.search(r"(Geometries|Gradient at each geome|Results for each geome)\s+R\s+N=\s*\d+\s*$", ln)]
+            for i in heads:
+                per = 2 if "Results" in lines[i] else 3 * natom
+                n = int(lines[i].split()[-1])
+                j = i + 1
+                while j < len(lines) and not re.search(r"[A-Za-z]{3}", lines[j]):
+                    j += 1
+                toks = " ".join(lines[i + 1:j]).split()
+                if per <= 0 or n != len(toks) or n < 2 * per:
+                    continue
+                keep = toks[:n - per]
+                bad = lines[:i] + [re.sub(r"N=\s*\d+\s*$", "N=%12d\n" % len(keep), lines[i])] + \
+                    [" " + " ".join(keep[k:k + 5]) + "\n" for k in range(0, len(keep), 5)] + lines[j:]
+                with open(path, "w") as fh:
+                    fh.write("".join(bad))
+                got2, err2, wl2 = load_frames(path, fmt)
+                counters["corruptions"] += 1
+                counters["load_many_runs"] += 1
+                if err2 is None and not wl2:
+                    viols.append(_v("corrupt-frame-silent-end", f"{tagb}: '{lines[i][:42].strip()}' made one geometry shorter: {len(got2)} of {nfr} "
+                                    "frames yielded with neither warning nor error"))
+                    break
+            feats.append(f"load:{case['writer']}:{case['klass']}:shortened-arrays")
         if viols or case["writer"] == "fchk_traj" or "frames" not in model:
             return viols, feats, counters, {"writer": case["writer"], "klass": case["klass"], "nframe": nfr}
         bounds = [0]
